@@ -55,6 +55,9 @@ def strategy(tier):
     ev = st.fixed_dictionaries({
         'c': st.integers(0, 7), 'name': st.sampled_from(EVENTS),
         'id': pid, 'args': st.lists(arg, max_size=3), 'ret': ret,
+        # sent as a BINARY_EVENT that announces zero attachments (legal on
+        # the wire, the reference parser delivers it at once)
+        'bin0': st.sampled_from([False, False, False, True]),
         'stray_ns': st.one_of(st.none(), st.none(), st.integers(0, 3))})
     op = st.one_of(
         st.fixed_dictionaries({'op': st.just('burst'),
@@ -345,6 +348,10 @@ def _run(case, w):
             rets[tag] = e['ret']
             args = [{'__tag': tag}] + list(e['args'])
             fr = wire.frames(wire.EVENT, ns, e['id'], [e['name']] + args)
+            if e.get('bin0') and len(fr) == 1 and isinstance(fr[0], str) \
+                    and fr[0][:1] == '2':
+                fr = ['50-' + fr[0][1:]]
+                labels['binary_event_without_attachments'] = True
             per_t.setdefault(c['t'], []).append((tag, fr))
             sid = c['sid'] if connected else None
             expected.append({'tag': tag, 't': c['t'], 'ns': ns, 'sid': sid,
